@@ -23,6 +23,8 @@ CONSTANTS Roles,     \* endpoint under test: "client_gm", "server_gm", "server_a
           Scripts,   \* consistent deviations of the scripted GMSSL client ("none" = honest)
           Policies,  \* the server's client-certificate policy in the scripted cases
           CutMax,    \* bodies are cut at every position 0..CutMax (positions beyond the body are skipped by the driver)
+          ExtTypes,  \* hello extension types rewritten in transit
+          ExtShapes, \* the content the rewritten extension gets (all outer lengths consistent)
           SelfMals,  \* how the inner 16-bit length of a self-produced key-exchange message is wrong
           ClientAuth \* BOOLEAN: the honest flight includes CertificateRequest / client Certificate / CertificateVerify
 
@@ -56,6 +58,9 @@ Apply(h, kk, o) ==
     [] o.op = "replace" -> SubSeq(h, 1, kk - 1) \o <<"X:" \o o.t>> \o SubSeq(h, kk + 1, Len(h))
     \* ClientHello rewritten in transit: other version, other suite list, no null compression
     [] o.op \in {"chvers", "chsuites", "chcomp"} -> <<"MOD">> \o SubSeq(h, 2, Len(h))
+    \* one extension of the hello (ClientHello towards a server, ServerHello towards a client) replaced or added in transit,
+    \* its own content empty / an empty list / a list with an empty item / a list length beyond or short of the data / twice
+    [] o.op = "helloext" -> <<"MOD">> \o SubSeq(h, 2, Len(h))
     \* the peer itself produces (and hashes into its own transcript) a key-exchange message whose inner length prefix
     \* is wrong: no transcript divergence will save the endpoint, its parser has to notice
     [] o.op = "selfmal" -> SubSeq(h, 1, kk - 1) \o <<"BAD">> \o SubSeq(h, kk + 1, Len(h))
@@ -85,6 +90,7 @@ Ops(h) == {[op |-> "none"], [op |-> "refrag"]} \cup
           UNION {{[op |-> "replace", k |-> i, t |-> t] : t \in InjTypes \ {h[i]}} : i \in 1..Len(h)} \cup
           \* every cut position of the short structured messages (hello, key exchange, certificate request / verify)
           {[op |-> "trunc", k |-> i, how |-> "cut" \o ToString(n)] : i \in {j \in 1..Len(h) : h[j] \in {"CH", "SH", "SKE", "CREQ", "CKE", "CV"}}, n \in 0..CutMax} \cup
+          {[op |-> "helloext", k |-> 1, v |-> t, how |-> w] : t \in ExtTypes, w \in ExtShapes} \cup
           {[op |-> "selfmal", k |-> i, how |-> w] : i \in {j \in 1..Len(h) : h[j] \in {"CKE", "SKE"}}, w \in SelfMals} \cup
           (IF h[1] = "SH" THEN {[op |-> "srvscript", k |-> 3, how |-> w] : w \in {"ecdhe_curve99", "ecdhe_curve23", "ecdhe_curve24", "noccs_plainfin", "reneg_honest", "reneg_noccs"}} ELSE {}) \cup
           (IF h[1] = "CH" THEN UNION {{[op |-> "script", k |-> 1, how |-> w, policy |-> p] : p \in {q \in Policies : w \in {"omit_cv", "dup_cv"} => q # "none"}} : w \in Scripts} \cup
